@@ -93,10 +93,11 @@ def run_shards(binpath, check, tier, nshards, extra_args, wdir, seed, wall_cap):
                 die("engine reported a machinery error (shard %d)" % k)
             # death: signal or abort
             idx = None
+            tag = 0
             try:
                 import struct
-                raw = open(prog, "rb").read(8)
-                idx = struct.unpack("<Q", raw)[0]
+                raw = open(prog, "rb").read(16)
+                idx, tag = struct.unpack("<QQ", raw.ljust(16, b"\0"))
                 if idx == 0xFFFFFFFFFFFFFFFF:
                     idx = None
             except Exception:
@@ -105,7 +106,7 @@ def run_shards(binpath, check, tier, nshards, extra_args, wdir, seed, wall_cap):
             if idx is None:
                 print(tail)
                 die("shard %d died (rc=%s) before announcing a case" % (k, rc))
-            deaths.append({"shard": k, "index": idx, "rc": rc, "log_tail": tail})
+            deaths.append({"shard": k, "index": idx, "rc": rc, "log_tail": tail, "tag": tag})
             restarts += 1
             if restarts > 48:
                 # a defect that kills the worker on very many cases: stop restarting, keep the
@@ -156,3 +157,27 @@ def merge(results):
     return m
 
 
+
+
+def merge_two(a, b):
+    a["cases_enumerated"] += b["cases_enumerated"]
+    a["evaluations"] += b["evaluations"]
+    a["nontrivial"] += b["nontrivial"]
+    a["states"].update(b["states"])
+    a["transitions"].update(b["transitions"])
+    for k in ("outcomes", "spaces", "counters"):
+        for x, y in b[k].items():
+            a[k][x] = a[k].get(x, 0) + y
+    for s in b["samples"]:
+        if len(a["samples"]) < 16 and s not in a["samples"]:
+            a["samples"].append(s)
+    for k in ("caps", "notes"):
+        for x in b[k]:
+            if x not in a[k]:
+                a[k].append(x)
+    for sig, f in b["failures"].items():
+        if sig in a["failures"]:
+            a["failures"][sig]["count"] += f["count"]
+        else:
+            a["failures"][sig] = f
+    return a
